@@ -1256,7 +1256,9 @@ def st_cmp(ctx, n, shapes, label="cmp"):
     # values that a normalisation form, a case folding or a filter of invisible characters would identify: different
     # strings, so different PURLs (in every component)
     twins = [("e\u0301", "\u00e9"), ("\ufb01", "fi"), ("\uff21", "A"), ("\u212a", "K"), ("\u00df", "ss"), ("\u0130", "i\u0307"), ("\u1100\u1161", "\uac00"),
-             ("a\u200bb", "ab"), (" a", "a"), ("a\u00adb", "ab"), ("\u212b", "\u00c5"), ("a", "\u0430"), ("A", "a"), ("\u03c3", "\u03c2"), ("a\u0000", "a")]
+             ("a\u200bb", "ab"), (" a", "a"), ("a\u00adb", "ab"), ("\u212b", "\u00c5"), ("a", "\u0430"), ("A", "a"), ("\u03c3", "\u03c2"), ("a\u0000", "a"),
+             # numerically equal, textually different (a "natural" / version-aware order would tie them or reorder them)
+             ("2023.01.5", "2023.1.05"), ("1.01", "1.1"), ("007", "7"), ("1.0", "1.00"), ("1.10", "1.9"), ("v01.2", "v1.02"), ("1e3", "1000"), ("0x10", "16")]
     # a literal escape inside a URL-valued qualifier against the character it would denote: different values
     for k_ in ("download_url", "repository_url", "vcs_url", "k"):
         for x_, y_ in (("https://example.com/a%20b.tgz", "https://example.com/a b.tgz"), ("https://e.com/x%C3%A9", "https://e.com/x\u00e9"), ("https://e.com/a%23b", "https://e.com/a#b"),
